@@ -181,8 +181,16 @@ func (r *rewriter) rewriteStmt(st ast.Stmt) []ast.Stmt {
 		// then shuffles the slice with the (redirected, seeded) PRNG. Sorting the collected
 		// keys first picks one of the legal map iteration orders and makes the shuffle - and
 		// with it the order of the watcher's polls - a function of the tape.
-		if r.rel == "pkg/api/watcher.go" && s.Value == nil && s.Key != nil && len(s.Body.List) == 1 {
-			if as, ok := s.Body.List[0].(*ast.AssignStmt); ok && len(as.Lhs) == 1 && len(as.Rhs) == 1 {
+		if (r.rel == "pkg/api/watcher.go" || r.rel == "pkg/api/api_impl.go") && s.Value == nil && s.Key != nil && len(s.Body.List) == 1 {
+			body0 := s.Body.List[0]
+			// (pkg/api/api_impl.go: the stale outputs to delete are collected as
+			//  `for p := range old { if _, ok := new[p]; !ok { list = append(list, p) } }` and one
+			//  goroutine per entry is spawned afterwards: sorted, the deleters' task ids - and with
+			//  them the order in which fault plans consume the tape - are a function of the tape)
+			if ifs, ok := body0.(*ast.IfStmt); ok && ifs.Else == nil && len(ifs.Body.List) == 1 {
+				body0 = ifs.Body.List[0]
+			}
+			if as, ok := body0.(*ast.AssignStmt); ok && len(as.Lhs) == 1 && len(as.Rhs) == 1 {
 				if call, ok := as.Rhs[0].(*ast.CallExpr); ok && len(call.Args) == 2 {
 					if fn, ok := call.Fun.(*ast.Ident); ok && fn.Name == "append" {
 						dst, ok1 := as.Lhs[0].(*ast.Ident)
